@@ -966,3 +966,13 @@ package decoder
 // is safe only if the scanner never stands on the sentinel while the buffer is not marked full - an
 // invariant the NUL-cutting readBuf does not let us state (see wfStream). Covered by the bounded
 // chunking stand-in only.
+
+// ---------------------------------------------------------------- UnmarshalJSON dispatch (C06)
+// The decoder is installed for types that implement one of the two UnmarshalJSON forms; which one is
+// not known here, so no unchecked type assertion may be made (the context option of the call says
+// nothing about the type).
+//@ func (*unmarshalJSONDecoder).Decode(d, ctx, cursor, depth, p) (c, err)
+//@   props C06
+//@   requires d != nil && ctx != nil && ctx.Option != nil && bufOK(ctx.Buf, cursor)
+//@   ensures err == nil ==> cursor < c && c < len(old(ctx.Buf))
+//@   assigns all
